@@ -382,12 +382,16 @@ class FnObligation(Obligation):
 # ----------------------------------------------------------------------------- helpers
 
 def _from_checker(e):
+    """an exception counts as raised by the code under contract only if the innermost frame that
+    is neither library code (site-packages) nor python's own lies in /repo; otherwise it is ours"""
     tb = e.__traceback__
     last = None
     while tb is not None:
-        last = tb.tb_frame.f_code.co_filename
+        fn = tb.tb_frame.f_code.co_filename
+        if "site-packages" not in fn and not fn.startswith("<") and "/lib/python" not in fn:
+            last = fn
         tb = tb.tb_next
-    return last is not None and ("/verif/vf/" in last)
+    return last is None or not last.startswith("/repo/")
 
 
 def _cut(p, n=400):
